@@ -5,6 +5,7 @@ package console
 // C19, VESA framebuffer driver: byte-level reference model of the framebuffer.
 
 import (
+	"strings"
 	"fmt"
 	"image/color"
 	"testing"
@@ -55,6 +56,10 @@ type c19FbCase struct {
 	// PreOps (only with a logo): operations issued after a first SetFont but before the logo is
 	// installed - the console then has no logo area yet; SetLogo and SetFont follow, then Ops
 	PreOps []c19Op `json:"pre_ops,omitempty"`
+	// PostOps: after Ops the driver is initialised a second time (DriverInit maps the framebuffer
+	// again, at another address) and these operations follow: they must act on the framebuffer
+	// the driver has now, and leave the previous mapping alone
+	PostOps []c19Op `json:"post_ops,omitempty"`
 	Ops    []c19Op `json:"ops"`
 }
 
@@ -95,7 +100,7 @@ func (c c19FbCase) valid() string {
 	default:
 		return "depth"
 	}
-	if c.Width < 1 || c.Width > 256 || c.Height < 1 || c.Height > 400 || c.Pad > 64 {
+	if c.Width < 1 || c.Width > 8400 || c.Height < 1 || c.Height > 8400 || c.Pad > 64 || uint64(c.Width)*uint64(c.Height) > 1<<20 || uint64(c.Height)*uint64(c.Width*4+c.Pad) > 4<<20 {
 		return "size"
 	}
 	if c.GlyphW < 8 || c.GlyphW > 16 || c.GlyphH < 1 || c.GlyphH > 32 {
@@ -349,9 +354,14 @@ func c19FbRun(c c19FbCase) (*vlib.Failure, c19OpStats) {
 	m.alt = make([]byte, m.n)
 	m.kind = make([]uint8, m.n)
 	// runOps: SetFont for the current logo area, then the operations against the model
+	fontSet := false
 	runOps := func(ops []c19Op, phase string) *vlib.Failure {
-		cons.SetFont(&font.Font{Name: "verif", GlyphWidth: m.gw, GlyphHeight: m.gh, BytesPerRow: m.bpr,
-			Data: append([]byte(nil), m.font...)})
+		if !(fontSet && strings.HasPrefix(phase, "after a second DriverInit")) {
+			// (not again after a repeated DriverInit: the font has not changed)
+			cons.SetFont(&font.Font{Name: "verif", GlyphWidth: m.gw, GlyphHeight: m.gh, BytesPerRow: m.bpr,
+				Data: append([]byte(nil), m.font...)})
+			fontSet = true
+		}
 		if w, h := cons.Dimensions(Characters); w != m.cols || h != m.rows {
 			return vlib.Failf("%s: the console reports a grid of %dx%d cells, want %dx%d (width/glyph width, (height-logo)/glyph height)", geo, w, h, m.cols, m.rows)
 		}
@@ -454,6 +464,47 @@ func c19FbRun(c c19FbCase) (*vlib.Failure, c19OpStats) {
 	if f := runOps(c.Ops, ""); f != nil {
 		return f, st
 	}
+	if len(c.PostOps) > 0 {
+		buf2, page2, err := c19SecondBuffer(m.n)
+		if err != nil {
+			return vlib.Failf("VERIF-HARNESS guarded memory: %v", err), st
+		}
+		for i := range buf2 {
+			buf2[i] = c19Prefill(i) ^ 0x3c
+		}
+		old := fb
+		frozen := append([]byte(nil), old...)
+		restore := c19Seams(page2)
+		pc := vlib.CatchFault(func() {
+			if e := cons.DriverInit(c19Discard{}); e != nil {
+				panic("DriverInit: " + e.Message)
+			}
+		})
+		restore()
+		if pc.Panicked {
+			return vlib.Failf("second DriverInit (%s): %s", geo, c19PanicText(pc)), st
+		}
+		if len(cons.fb) != m.n || uintptr(unsafe.Pointer(&cons.fb[0])) != page2 {
+			return vlib.Failf("second DriverInit (%s): the framebuffer slice (%d bytes) is not the %d bytes of the new mapping", geo, len(cons.fb), m.n), st
+		}
+		fb = cons.fb
+		checkOld := func(when string) *vlib.Failure {
+			for i := range old {
+				if old[i] != frozen[i] {
+					return vlib.Failf("%s: the operation changed %s of the PREVIOUS mapping (the driver was initialised again and has a new framebuffer): memory outside the framebuffer was written", when, m.where(i))
+				}
+			}
+			return nil
+		}
+		for i := range c.PostOps {
+			if f := runOps(c.PostOps[i:i+1], fmt.Sprintf("after a second DriverInit, (post-op %d) ", i)); f != nil {
+				return f, st
+			}
+			if f := checkOld(fmt.Sprintf("after a second DriverInit, post-op %d %s (%s)", i, c.PostOps[i], geo)); f != nil {
+				return f, st
+			}
+		}
+	}
 	if boot != nil {
 		if ch := boot.changed(); ch != "" {
 			return vlib.Failf("%s: the driver wrote to the boot information it was created from: %s", geo, ch), st
@@ -516,6 +567,12 @@ func c19GenFb(t *rapid.T, allowEmptyGrid bool, excluded func()) c19FbCase {
 		return uint32(rapid.IntRange(min, int(unit)-1).Draw(t, label))
 	}
 	cols, rows := cells("cols"), cells("rows")
+	switch rapid.IntRange(0, 59).Draw(t, "bigscreen") {
+	case 0: // a portrait screen's worth of rows
+		rows, cols = uint32(rapid.SampledFrom([]int{127, 128, 129, 130, 256, 257}).Draw(t, "tall-rows")), uint32(rapid.IntRange(1, 2).Draw(t, "tall-cols"))
+	case 1: // a wide screen's worth of columns
+		cols, rows = uint32(rapid.SampledFrom([]int{127, 128, 129, 256, 257, 513}).Draw(t, "wide-cols")), uint32(rapid.IntRange(1, 2).Draw(t, "wide-rows"))
+	}
 	minW := 0
 	if cols == 0 {
 		minW = 1
@@ -572,6 +629,9 @@ func c19GenFb(t *rapid.T, allowEmptyGrid bool, excluded func()) c19FbCase {
 	if c.Logo != nil && rapid.IntRange(0, 3).Draw(t, "drawbeforelogo") == 0 {
 		c.PreOps = rapid.SliceOfN(c19GenOp(c.Width/c.GlyphW, c.Height/c.GlyphH, special, mults), 1, 6).Draw(t, "preops")
 	}
+	if rapid.IntRange(0, 7).Draw(t, "reinit") == 0 {
+		c.PostOps = rapid.SliceOfN(c19GenOp(c.Width/c.GlyphW, gridRows, special, mults), 1, 6).Draw(t, "postops")
+	}
 	return c
 }
 
@@ -589,6 +649,7 @@ func c19FbLabels(c c19FbCase, st c19OpStats) (bool, []string) {
 	add(c.Pad > 0, "pitch>row-bytes")
 	add(c.ViaBoot, "created-from-boot-information")
 	add(len(c.PreOps) > 0, "drawn-on-before-the-logo-is-installed")
+	add(len(c.PostOps) > 0, "driver-initialised-a-second-time")
 	add(c.Bpp != 8 && c.RPos < c.BPos, "layout-bgr")
 	add(c.Bpp == 16 && c.GSize == 5, "depth=16-with-555-masks")
 	add(c.Width%c.GlyphW != 0, "right-remainder-strip")
